@@ -23,6 +23,15 @@ def run(ctx):
         if n_units >= 8 and rng.random() < 0.7:
             n_units = rng.randint(1, 7)
         exprs = [gen.rand_expr_flat(rng, n_units, 2, 3, 2, p_zero=0.2) for _ in range(rng.randint(1, 6))]
+        if it % 7 == 3:
+            # many rows over few units (row positions beyond 64, 128): coalitions that agree on the first rows and differ only on late ones
+            n_units = rng.randint(2, 4)
+            n_late = rng.choice([66, 70, 130])
+            owner = [0] * (n_late - 4) + [rng.randrange(n_units) for _ in range(4)]
+            owner[-1], owner[-2] = n_units - 1, max(0, n_units - 2)
+            exprs = [{"eq": [u, 1]} for u in owner]
+            if rng.random() < 0.5:
+                exprs[rng.randrange(len(exprs) - 4, len(exprs))] = {"conj": [[0, 1], [n_units - 1, 1]]}
         other_stream = (it % 10 == 9)
         table = tables.rand_table(rng, exprs, n_units, p_fail=0.2, dyadic=(rng.random() < 0.6), allow_other=other_stream)
         null = Fraction(rng.randrange(-16, 17), 4)
@@ -46,7 +55,7 @@ def run(ctx):
         case = dict(nUnits=n_units, exprs=exprs, table=tables.table_json(table), null=str(null))
         try:
             imp = I["imp"].ShapleyImportance(method="bruteforce", utility=util)
-            res = list(np.asarray(imp.fit(X, np.zeros(n_rows, dtype=int), provenance=prov).score(np.zeros((1, 1)), np.zeros(1, dtype=int)), dtype=float))
+            res = list(np.asarray((tables.fit_ids(util, imp, X, prov) if it % 2 else imp.fit(X, np.zeros(n_rows, dtype=int), provenance=prov)).score(np.zeros((1, 1)), np.zeros(1, dtype=int)), dtype=float))
         except KeyError:
             res = "Other"
         except Exception as e:  # noqa
@@ -67,6 +76,9 @@ def run(ctx):
         want = spec.shapley(n_units, lambda S: tables.value_of(table, tables.rows_present(exprs, [1 if u in S else 0 for u in range(n_units)]), null))
         if isinstance(res, str):
             ctx.mismatch("score() raised", case, impl=res, model=ans, spec=[str(x) for x in want])
+            continue
+        if util.bad:
+            ctx.mismatch("the utility was handed labels / metadata of rows other than the rows present under the coalition", case, impl=util.bad[:3])
             continue
         scale = 16
         # rows the utility was called with
